@@ -82,6 +82,10 @@ class _FormatAndDrop(logging.Handler):
 
     def emit(self, record):
         self.format(record)        # exceptions propagate to handleError below
+        # and keep the last records, as logging.handlers.MemoryHandler / pytest's caplog / assertLogs do
+        KEPT.append(record)
+        if len(KEPT) > 400:
+            del KEPT[:200]
 
     def handleError(self, record):
         # a StreamHandler prints a traceback and carries on; the library is still expected not to depend on it.
@@ -90,6 +94,7 @@ class _FormatAndDrop(logging.Handler):
 
 
 LOG_ERRORS = []
+KEPT = []
 _DEBUG_HANDLER = _FormatAndDrop()
 logging.raiseExceptions = True
 
@@ -99,6 +104,7 @@ def set_logging(debug):
     (the situation of `msmart-ng ... --debug` or a Home Assistant debug log)."""
     lg = logging.getLogger("msmart")
     del LOG_ERRORS[:]
+    del KEPT[:]
     if debug:
         logging.disable(logging.NOTSET)
         lg.setLevel(logging.DEBUG)
